@@ -339,12 +339,17 @@ func init() {
 		return Outcome{Cond: uint32(res), Err: errText(err), DVal: DecVal(a.D)}
 	})
 	reg("UnmarshalText", KDecSet, false, false, true, func(a *Args) Outcome {
-		err := a.D.UnmarshalText([]byte(a.S))
+		in := []byte(a.S)
+		err := a.D.UnmarshalText(in)
 		if err != nil {
 			a.D.SetInt64(0)
 			a.D.Exponent = 0
 		}
-		return Outcome{Err: errText(err), DVal: DecVal(a.D)}
+		o := Outcome{Err: errText(err), DVal: DecVal(a.D)}
+		if string(in) != a.S {
+			o.Self = fmt.Sprintf("UnmarshalText modified its input bytes: %q -> %q", a.S, in)
+		}
+		return o
 	})
 	reg("Scan", KDecSet, false, false, true, func(a *Args) Outcome {
 		var src interface{}
@@ -363,7 +368,11 @@ func init() {
 			a.D.SetInt64(0)
 			a.D.Exponent = 0
 		}
-		return Outcome{Err: errText(err), DVal: DecVal(a.D)}
+		o := Outcome{Err: errText(err), DVal: DecVal(a.D)}
+		if b, ok := src.([]byte); ok && string(b) != a.S {
+			o.Self = fmt.Sprintf("Scan modified its input bytes: %q -> %q", a.S, b)
+		}
+		return o
 	})
 	reg("NullScan", KDecSet, false, false, true, func(a *Args) Outcome {
 		var nd apd.NullDecimal
